@@ -731,7 +731,9 @@ LEXER_PROBES = [
     ("0.30000000000000004", "N"), ("true", "N"), ("false", "N"), ("9007199254740993.0", "N"), ("1e23", "N"), ("8.5e-320", "N"),
 ]
 # texts g++ must refuse and the Lean lexer must refuse
-LEXER_REJECTS = ['"t"r"', '"a\nb"', '"a\rb"', '"a\\"', '"a\\qb"', '"abc']
+# (an unknown escape such as \q is "conditionally supported" by the standard: g++ accepts it with a warning, the Lean
+# lexer refuses it; it is therefore not probed)
+LEXER_REJECTS = ['"t"r"', '"a\nb"', '"a\rb"', '"a\\"', '"abc', '"a??/" "x']
 
 
 def lex_matches_gpp(kind: str, lx: Dict[str, Any], got: Any) -> Optional[str]:
@@ -1444,12 +1446,37 @@ def findings_stream(ctx):
 # --------------------------------------------------------------------------------------------
 # entry points
 # --------------------------------------------------------------------------------------------
+def books_batch(ctx, cases: List[Dict[str, Any]]):
+    """recorded book cases, all in three driver calls"""
+    jobs = [(c["backend"], uncp(c["tree"]), [(uncp(n_), x) for n_, x in c["leaves"]]) for c in cases]
+    reqs, where = [], []
+    for c, (b, tree, leaves), model in zip(cases, jobs, model_books(ctx, jobs)):
+        impl = impl_book(b, tree, leaves)
+        if model is None or "err" in impl:
+            continue
+        r, w = book_compare(ctx, c, b, tree, impl, model, "book")
+        reqs += r
+        where += w
+    book_judge(ctx, where, ctx.driver(DRIVER, reqs))
+
+
 def corpus_stream(ctx):
     from vlib import corpus_cases
 
-    for c in corpus_cases(ID):
-        ctx.count("corpus")
-        run_case(ctx, c, report=True)
+    cs = corpus_cases(ID)
+    ctx.count("corpus", len(cs))
+    units = [(value_of(c["const"]), c.get("backend", "atlas")) for c in cs if c.get("stream") == "unit"]
+    if units:
+        unit_stream(ctx, units, label="corpus")
+    pipes = [{"backend": c["backend"], "pos": c["position"], "v": value_of(c["const"]), "qastle": c.get("via") == "qastle"} for c in cs if c.get("stream") == "pipeline"]
+    if pipes:
+        pipeline_stream(ctx, pipes)
+    books = [c for c in cs if c.get("stream") == "book"]
+    if books:
+        books_batch(ctx, books)
+    for c in cs:
+        if c.get("stream") not in ("unit", "pipeline", "book"):
+            run_case(ctx, c, report=True)
 
 
 def run_case(ctx, case: Dict[str, Any], report: bool) -> int:
